@@ -210,6 +210,18 @@ CHECKS["C13"] = dict(
     technique="Lean 4 invariant proofs (cache bound, release) over the session / lifecycle models + differential correspondence and trace monitor on the real Scheduler+Proxy under synctest virtual time with goroutine-leak detection",
     design="5/C13", engine="allocator")
 
+CHECKS["C16"] = dict(
+    text="Kernel-checked theorems over a model of ContractManager, for every chain state and event: after start-up or a restart the "
+         "node watches exactly the contracts it sells plus those currently purchased with its wallet as buyer or validator (from every "
+         "chain state it may be started in); a purchase with its wallet as buyer or validator is picked up without a restart - also of a "
+         "contract that was watched, ended and was released; a purchase by others, a close and the delete flag leave the watched set "
+         "alone; a returning controller releases its own contract and only that. The corner that does not hold is a theorem too (a "
+         "re-purchase handled before the ended purchase's controller has returned is lost) and is replayed on the real code as a known "
+         "finding. The real ContractManager over the real HashrateEthereum store runs against a faked Ethereum node (eth_call by ABI, "
+         "log subscriptions) and is compared op by op with the model; the settled state is compared with the specification.",
+    technique="Lean 4 per-event theorems + start-up characterisation over a manager model (counterexample theorem for the known finding) + differential correspondence with the real ContractManager/HashrateEthereum over a fake Ethereum client under synctest",
+    design="5/C16", engine="contractmanager")
+
 NOT_YET = {}
 
 ALL = ["C%02d" % i for i in range(1, 21)]
